@@ -9,7 +9,8 @@
  * Line protocol (one answer line per op line):
  *   xrc HEX                          -> "<ret> <hex of the C string left in buf>"   (_extract_rc)
  *   dsh S K FANOUT CMDTMO SCRIPT[;SCRIPT...]
- *        SCRIPT = c<0|1>,o<hex>,v<int>,d<ms>,t<0|1>
+ *        SCRIPT = c<0|1>,o<hex>,v<int>,d<ms>,t<0|1>   |   x1  (rcmd_create fails for this target: _thd_init leaves
+ *                 it in state DSH_CANCELED and its thread is never started, as after ^C ^Z)
  *                                    -> "ret <int> exit <status>" | "noret exit <status>" | "noret sig <n>"
  *        dsh() runs in a forked child (it is a once-per-process function); the child's main-like
  *        wrapper does `return dsh (&opt)`, i.e. the exit status is the low 8 bits, as in main.c.
@@ -39,6 +40,7 @@ struct script {
     int rv;
     int delay_ms;
     int hang;                   /* keep stdout open until rcmd_signal */
+    int canceled;               /* rcmd_create returns NULL */
     int wfd;
 };
 static struct script scripts[MAXHOSTS];
@@ -49,8 +51,11 @@ int rcmd_init(opt_t * opt) { (void) opt; return 0; }
 
 struct rcmd_info *rcmd_create(char *host)
 {
-    struct rcmd_info *r = calloc(1, sizeof(*r));
-    (void) host;
+    struct rcmd_info *r;
+    int idx = (host && host[0] == 'h') ? atoi(host + 1) : 0;
+    if (idx >= 0 && idx < nscripts && scripts[idx].canceled)
+        return NULL;
+    r = calloc(1, sizeof(*r));
     r->fd = -1;
     r->efd = -1;
     r->opts = &stub_opts;
@@ -196,6 +201,7 @@ static int parse_scripts(char *spec)
             case 'v': s->rv = atoi(f + 1); break;
             case 'd': s->delay_ms = atoi(f + 1); break;
             case 't': s->hang = atoi(f + 1); break;
+            case 'x': s->canceled = atoi(f + 1); break;
             default: return -1;
             }
         }
